@@ -243,3 +243,92 @@ func VH_C20_database_recovers() {
 	verifAssert("C20.recovers.error-again-is-XD", third.CountryCode == "XD")
 	verifReach("C20.recovers.done", true)
 }
+
+// a datagram of an association that was already removed is still accounted through that
+// association's handle (the packet loop holds it): it is exported under the location and key of
+// ITS client, whatever association was opened in the meantime
+func VH_C20_late_report_keeps_its_location() {
+	verifInstallClock(1 << 41)
+	m, _ := NewServiceMetrics(&verifPerAddrDB{})
+	rounds := 1
+	if verifNative() {
+		rounds = 20
+	}
+	var lateTotal int64
+	late := verifI64("late-bytes")
+	verifAssume(late > 0 && late < 1<<20)
+	for r := 0; r < rounds; r++ {
+		a := m.AddUDPNatEntry(&net.UDPAddr{IP: net.IPv4(203, 0, 113, 4), Port: 40000}, "key-A") // location AA
+		a.AddPacketFromClient("OK", 100, 40)
+		a.RemoveNatEntry()
+		b := m.AddUDPNatEntry(&net.UDPAddr{IP: net.IPv4(203, 0, 113, 5), Port: 40001}, "key-B") // location BB
+		lateTotal += late
+		a.AddPacketFromClient("OK", late, 7)
+		b.AddPacketFromClient("OK", 55, 11)
+		b.RemoveNatEntry()
+	}
+	n := int64(rounds)
+	pl := m.udpServiceMetrics.proxyCollector.dataBytesPerLocation
+	verifAssert("C20.late-report.bytes-under-its-own-location",
+		verifCounterValue(pl, "int", "c>p", "AA", "64500", "Org-even") == 100*n+lateTotal &&
+			verifCounterValue(pl, "int", "c>p", "BB", "64501", "Org-odd") == 55*n)
+	pk := m.udpServiceMetrics.proxyCollector.dataBytesPerKey
+	verifAssert("C20.late-report.bytes-under-its-own-key|C16.late-report.bytes-under-its-own-key",
+		verifCounterValue(pk, "int", "c>p", "key-A") == 100*n+lateTotal && verifCounterValue(pk, "int", "c>p", "key-B") == 55*n)
+	pp := m.udpServiceMetrics.packetsFromClientPerLocation
+	verifAssert("C20.late-report.packets-under-its-own-location",
+		verifCounterValue(pp, "int", "AA", "64500", "Org-even", "OK") == 2*n && verifCounterValue(pp, "int", "BB", "64501", "Org-odd", "OK") == n)
+	verifReach("C20.late-report.done", true)
+}
+
+// two connections one after the other on the same service metrics, each authenticated or not:
+// the second one's close, probe and bytes are exported under ITS key (none when it failed
+// authentication), whatever the first one was
+func VH_C15_prom_two_connections() {
+	verifInstallClock(1 << 41)
+	m, _ := NewServiceMetrics(nil)
+	conn := &verifConn{remote: &net.TCPAddr{IP: net.IPv4(203, 0, 113, 5), Port: 50000}, local: &net.TCPAddr{IP: net.IPv4(192, 0, 2, 1), Port: 443}}
+	type run struct {
+		auth bool
+		key  string
+		cp   int64
+	}
+	runs := []run{{verifFlag("first-authenticated"), "key-1", 300}, {verifFlag("second-authenticated"), "key-2", 100}}
+	for _, r := range runs {
+		tcm := m.AddOpenTCPConnection(conn)
+		var d metrics.ProxyMetrics
+		d.ClientProxy = r.cp
+		if r.auth {
+			tcm.AddAuthenticated(r.key)
+			verifAdvance()
+			tcm.AddClosed("OK", d, time.Second)
+		} else {
+			tcm.AddProbe("ERR_CIPHER", "eof", r.cp)
+			verifAdvance()
+			tcm.AddClosed("ERR_CIPHER", d, time.Second)
+		}
+	}
+	t := m.tcpServiceMetrics
+	pk := t.proxyCollector.dataBytesPerKey
+	var wantNoKey int64
+	for _, r := range runs {
+		if r.auth {
+			verifAssert("C15.prom2.closed-under-its-key", verifCounterValue(t.closedConnections, "int", "", "", "", "OK", r.key) == 1)
+			verifAssert("C15.prom2.bytes-under-its-key", verifCounterValue(pk, "int", "c>p", r.key) == r.cp)
+		} else {
+			wantNoKey += r.cp
+			verifAssert("C15.prom2.unauthenticated-has-no-key", verifCounterValue(t.closedConnections, "int", "", "", "", "ERR_CIPHER", r.key) == 0 &&
+				verifCounterValue(pk, "int", "c>p", r.key) == 0)
+		}
+	}
+	nFailed := int64(0)
+	for _, r := range runs {
+		if !r.auth {
+			nFailed++
+		}
+	}
+	verifAssert("C15.prom2.failed-closed-without-key", verifCounterValue(t.closedConnections, "int", "", "", "", "ERR_CIPHER", "") == nFailed)
+	verifAssert("C15.prom2.failed-bytes-without-key", verifCounterValue(pk, "int", "c>p", "") == wantNoKey)
+	verifAssert("C15.prom2.opened", verifCounterValue(t.openConnections, "int", "", "", "") == 2)
+	verifReach("C15.prom2.done", true)
+}
